@@ -29,10 +29,12 @@ def shape? : String → Option (List (Nat × Nat))
 /-- `GetProtocolVersionMap*(magic, dm, ps, q)` restricted to `ks` (in the order of `ks`);
     `none` if a key is not in the table or has an unknown entry type -/
 def genMap (shape : List (Nat × Nat)) (ks : List Nat) (magic : Nat) (dm ps q : Bool) : Option VMap :=
-  ks.mapM fun v =>
-    match lookupMap shape v with
-    | some kn => (Kind.ofNat? kn).map fun k => (v, genEntry k magic dm ps q)
-    | none => none
+  match ks with
+  | [] => some []
+  | v :: vs =>
+    match (lookupMap shape v).bind Kind.ofNat?, genMap shape vs magic dm ps q with
+    | some k, some m => some ((v, genEntry k magic dm ps q) :: m)
+    | _, _ => none
 
 /-- "-" | "all" | "7,8,13" -/
 def parseVersions? (shape : List (Nat × Nat)) (s : String) : Option (List Nat) :=
